@@ -219,7 +219,21 @@ func (li *loopInfo) classify() (shape string, desc string) {
 			recv := ArgK(cl, 0)
 			adv := func(in ssa.Instruction) bool {
 				c2, ok := in.(*ssa.Call)
-				if !ok || len(c2.Common().Args) != 1 || ArgK(c2, 0) != recv {
+				if !ok {
+					return false
+				}
+				if len(c2.Common().Args) == 0 && !c2.Common().IsInvoke() {
+					// a method value chosen beforehand (next := it.Next, or it.Prev when walking
+					// backwards): every method it may be is an advance of this cursor
+					ms := boundMethods(c2.Common().Value, map[ssa.Value]bool{})
+					for _, m := range ms {
+						if m.recv != recv || !(strings.HasSuffix(m.name, ").Next") || strings.HasSuffix(m.name, ").Prev")) {
+							return false
+						}
+					}
+					return len(ms) > 0
+				}
+				if len(c2.Common().Args) != 1 || ArgK(c2, 0) != recv {
 					return false
 				}
 				n := CalleeName(c2.Common())
@@ -466,6 +480,43 @@ func cellOf(v ssa.Value) *ssa.Alloc {
 		default:
 			return nil
 		}
+	}
+	return nil
+}
+
+type boundMethod struct {
+	name string
+	recv ssa.Value
+}
+
+// boundMethods: the bound method values (x.M) a function value may be, through φs; nil when
+// it may be anything else.
+func boundMethods(v ssa.Value, seen map[ssa.Value]bool) []boundMethod {
+	if seen[v] {
+		return nil
+	}
+	seen[v] = true
+	switch x := v.(type) {
+	case *ssa.MakeClosure:
+		g, _ := x.Fn.(*ssa.Function)
+		if g == nil || !strings.HasSuffix(g.Name(), "$bound") || len(x.Bindings) != 1 {
+			return nil
+		}
+		name := ")." + strings.TrimSuffix(g.Name(), "$bound")
+		return []boundMethod{{name, x.Bindings[0]}}
+	case *ssa.Phi:
+		var out []boundMethod
+		for _, e := range x.Edges {
+			if seen[e] {
+				continue
+			}
+			ms := boundMethods(e, seen)
+			if ms == nil {
+				return nil
+			}
+			out = append(out, ms...)
+		}
+		return out
 	}
 	return nil
 }
